@@ -1,6 +1,6 @@
 (* C03 — the custom unparser round-trips every expression tree. *)
 From Coq Require Import String List ZArith Bool Arith.
-From OL Require Import PyAst Unparse Parse ParseProof ParseTie.
+From OL Require Import PyAst Unparse Namespace Lower Parse ParseProof ParseTie LowerCore.
 From OLGen Require Import Tables.
 Import ListNotations.
 Local Open Scope string_scope.
@@ -39,6 +39,15 @@ Theorem C03_roundtrip_unparser_core_partial : forall e, core_top e = true ->
   exists f0, forall f, f0 <= f -> pc f (MExpr slot_top) (norm (unparse_toks e)) = Some (e, []).
 Proof. exact roundtrip_unparser_core_top. Qed.
 Print Assumptions C03_roundtrip_unparser_core_partial.
+
+(* "... or emitted by the converter": the scope-rewriting layer (Lower.transf, the model of expr_transform.py: loads through the
+   nonlocal / class dictionaries, globals(), conditional loads, assignment expressions turned into dictionary stores, the explicit
+   super(__class__, self)) maps the core into itself - for EVERY namespace, every set of bound names and every expression of
+   the core, what the converter emits for it is again an expression the round-trip theorem covers. *)
+Theorem C03_scope_rewriting_keeps_core : forall (n : nsp) e bd inn e', core_top e = true -> transf n bd inn e = inl e' ->
+  core_top e' = true.
+Proof. exact transf_keeps_core_top. Qed.
+Print Assumptions C03_scope_rewriting_keeps_core.
 
 (* the table facts the proof rests on, each a finite check over the regenerated table (a changed precedence or slot
    breaks one of them): an operand printed bare in a slot is followed by a token that does not continue it *)
